@@ -133,9 +133,9 @@ theorem elabStep_shape (env : Env) (s : St) :
   · exact Or.inl ⟨_, rfl⟩
   · right
     simp only []
-    split <;> split <;> first
-      | exact ⟨_, _, _, rfl, rfl, by simp [List.append_assoc]; rfl⟩
-      | exact ⟨_, _, _, rfl, rfl, by simp [List.append_assoc]⟩
+    split
+    · exact ⟨_, _, _, rfl, rfl, by simp only [List.append_assoc]; rfl⟩
+    · exact ⟨_, _, _, rfl, rfl, by simp only [List.append_assoc]; rfl⟩
   · exact Or.inl ⟨_, rfl⟩
 
 theorem run_out_prefix (env : Env) (fuel : Nat) (s : St) (fs : List OutFrame) (l : Leaf) (es : List Err)
@@ -284,5 +284,277 @@ theorem f9_diverges (fuel : Nat) : extract f9Env fuel 0 = .outOfFuel := by
     rw [f9_phase_none]
     unfold F9Inv initSt
     simp
+
+end SS.Extract
+
+namespace SS.Extract
+
+/-! ### origin invariant (C16) -/
+
+/-- A frame's recorded origin, if any, is a generator-like object whose own frame is this frame. -/
+def FrameOK (env : Env) (f : FrameRec) : Prop :=
+  ∀ o, f.origin = some o → env.genLike o = true ∧ env.frameOf o = some f.pyframe
+
+def ObjOK (env : Env) : Obj → Prop
+  | .frameObj f => FrameOK env f
+  | _ => True
+
+structure StOK (env : Env) (s : St) : Prop where
+  uw : ∀ q ∈ s.toUnwrap, ObjOK env q.cur
+  el : ∀ e ∈ s.toElab, ObjOK env e.node
+  out : ∀ f ∈ s.out, FrameOK env f.frame
+
+theorem wrapOrigin_ok (env : Env) (i : Item) (o : Option Item) : FrameOK env ⟨i, wrapOrigin env i o⟩ := by
+  intro o' h
+  cases o with
+  | none => simp [wrapOrigin] at h
+  | some x =>
+    simp only [wrapOrigin] at h
+    split at h
+    · rename_i hc
+      cases h
+      simp only [Bool.and_eq_true, beq_iff_eq] at hc
+      exact hc
+    · cases h
+
+theorem pushUnwrapped_ok (env : Env) (xs : List (Option Item)) (o : Option Item) (d : Nat) (q : List QE)
+    (h : ∀ e ∈ q, ObjOK env e.cur) : ∀ e ∈ pushUnwrapped env xs o d q, ObjOK env e.cur := by
+  intro e he
+  unfold pushUnwrapped at he
+  rcases List.mem_append.mp he with h1 | h1
+  · rcases List.mem_filterMap.mp h1 with ⟨x, _, hx⟩
+    cases x with
+    | none => simp at hx
+    | some i => simp at hx; subst hx; trivial
+  · exact h e h1
+
+theorem asLeaf_ok (env : Env) (s : St) (q : QE) (errs : List Err) (hq : ObjOK env q.cur) (hs : StOK env s) :
+    StOK env (asLeaf s q.cur q.depth errs) := by
+  refine ⟨hs.uw, ?_, hs.out⟩
+  intro e he
+  simp [asLeaf] at he
+  rcases he with h | h
+  · exact hs.el e h
+  · subst h; exact hq
+
+theorem handleUnwrap_ok (env : Env) (s : St) (q : QE) (r : UnwrapRes) (hq : ObjOK env q.cur) (hs : StOK env s) :
+    StOK env (handleUnwrap env s q r) := by
+  unfold handleUnwrap
+  split
+  · exact asLeaf_ok env s q _ hq hs
+  · split
+    · exact asLeaf_ok env s q _ hq hs
+    · split
+      · exact asLeaf_ok env s q _ hq hs
+      · exact ⟨pushUnwrapped_ok env _ _ _ _ hs.uw, hs.el, hs.out⟩
+
+theorem unwrapStep_ok (env : Env) (s : St) (q : QE) (hq : ObjOK env q.cur) (hs : StOK env s) :
+    StOK env (unwrapStep env s q) := by
+  unfold unwrapStep
+  split
+  · rename_i f hf
+    refine ⟨hs.uw, ?_, hs.out⟩
+    intro e he
+    simp at he
+    rcases he with h | h
+    · exact hs.el e h
+    · subst h; rw [hf] at hq; exact hq
+  · rename_i i hi
+    split
+    · refine ⟨hs.uw, ?_, hs.out⟩
+      intro e he
+      simp at he
+      rcases he with h | h
+      · exact hs.el e h
+      · subst h; exact wrapOrigin_ok env i q.origin
+    · exact handleUnwrap_ok env s q _ hq hs
+  · exact handleUnwrap_ok env s q _ hq hs
+
+theorem unwrapPhase_ok (env : Env) (fuel : Nat) (s s' : St) (h : unwrapPhase env fuel s = some s') (hs : StOK env s) :
+    StOK env s' := by
+  induction fuel generalizing s with
+  | zero => simp [unwrapPhase] at h
+  | succ n ih =>
+    unfold unwrapPhase at h
+    split at h
+    · cases h; exact hs
+    · rename_i q rest hq
+      apply ih _ h
+      apply unwrapStep_ok
+      · exact hs.uw q (by rw [hq]; simp)
+      · exact ⟨fun e he => hs.uw e (by rw [hq]; simp [he]), hs.el, hs.out⟩
+
+theorem resolveElem_ok (env : Env) (next : Obj) (hn : ObjOK env next) (e : Elem) : ObjOK env (resolveElem next e) := by
+  cases e with
+  | item i => trivial
+  | none => trivial
+  | next => exact hn
+
+theorem elabOutcome_ok (env : Env) (f : FrameRec) (next : Obj) (hn : ObjOK env next) (r : ElabRes) (items : List Obj)
+    (h : (elabOutcome env f next r).1 = some items) : ∀ o ∈ items, ObjOK env o := by
+  unfold elabOutcome at h
+  split at h
+  · cases h
+  · split at h
+    · cases h
+    · simp only [Option.some.injEq] at h; subst h
+      intro o ho; simp at ho; subst ho; exact resolveElem_ok env next hn _
+  · simp only [Option.some.injEq] at h; subst h
+    intro o ho
+    rcases List.mem_map.mp ho with ⟨e, _, rfl⟩
+    exact resolveElem_ok env next hn e
+  · simp only [Option.some.injEq] at h; subst h
+    intro o ho; simp at ho
+
+theorem backOf_ok (env : Env) (rest : List EE) (h : ∀ e ∈ rest, ObjOK env e.node) : ∀ q ∈ backOf rest, ObjOK env q.cur := by
+  intro q hq
+  rcases List.mem_map.mp hq with ⟨e, he, rfl⟩
+  exact h e he
+
+theorem requeue_ok (env : Env) (d : Nat) (next : Obj) (items : List Obj) (rest : List EE)
+    (hi : ∀ o ∈ items, ObjOK env o) (hr : ∀ e ∈ rest, ObjOK env e.node) :
+    ∀ q ∈ requeue env d next items rest, ObjOK env q.cur := by
+  intro q hq
+  unfold requeue at hq
+  split at hq
+  · rcases List.mem_append.mp hq with h | h
+    · rcases List.mem_map.mp h with ⟨o, ho, rfl⟩; exact hi o ho
+    · exact backOf_ok env rest hr q ((List.dropWhile_sublist _).subset h)
+  · rcases List.mem_append.mp hq with h | h
+    · rcases List.mem_map.mp h with ⟨o, ho, rfl⟩; exact hi o (List.dropLast_subset _ ho)
+    · exact backOf_ok env rest hr q h
+
+theorem elabStep_ok (env : Env) (s s' : St) (h : elabStep env s = .inr s') (hs : StOK env s) : StOK env s' := by
+  unfold elabStep at h
+  split at h
+  · cases h
+  · rename_i f d rest hE
+    have hf : FrameOK env f := hs.el ⟨.frameObj f, d⟩ (by rw [hE]; simp)
+    have hrest : ∀ e ∈ rest, ObjOK env e.node := fun e he => hs.el e (by rw [hE]; simp [he])
+    have hnext : ObjOK env (nextObj rest.head?) := by
+      cases rest with
+      | nil => simp [nextObj, ObjOK]
+      | cons x xs => simp [nextObj]; exact hrest x (by simp)
+    have hout : ∀ hide, ∀ g ∈ s.out ++ [(⟨f, hide⟩ : OutFrame)], FrameOK env g.frame := by
+      intro hide g hg
+      simp at hg
+      rcases hg with h1 | h1
+      · exact hs.out g h1
+      · subst h1; exact hf
+    simp only [] at h
+    split at h
+    · simp only [Sum.inr.injEq] at h; subst h
+      exact ⟨hs.uw, hrest, hout _⟩
+    · rename_i items hit
+      simp only [Sum.inr.injEq] at h; subst h
+      exact ⟨requeue_ok env d _ items rest (elabOutcome_ok env f _ hnext _ items hit) hrest, by simp, hout _⟩
+  · cases h
+
+theorem run_ok (env : Env) (fuel : Nat) (s : St) (fs : List OutFrame) (l : Leaf) (es : List Err)
+    (h : run env fuel s = .done fs l es) (hs : StOK env s) : ∀ f ∈ fs, FrameOK env f.frame := by
+  induction fuel generalizing s with
+  | zero => simp [run] at h
+  | succ n ih =>
+    unfold run at h
+    split at h
+    · cases h
+    · rename_i s' hs'
+      have hok := unwrapPhase_ok env _ s s' hs' hs
+      cases hE : elabStep env s' with
+      | inl o =>
+        rw [hE] at h
+        rcases elabStep_shape env s' with ⟨l', hl⟩ | ⟨s'', x, errs, hs'', _, _⟩
+        · rw [hl] at hE; cases hE; cases h; exact hok.out
+        · rw [hs''] at hE; cases hE
+      | inr s'' =>
+        rw [hE] at h
+        exact ih s'' h (elabStep_ok env s' s'' hE hok)
+
+end SS.Extract
+
+namespace SS.Extract
+
+theorem unwrapStep_toElab_prefix (env : Env) (s : St) (q : QE) : s.toElab <+: (unwrapStep env s q).toElab := by
+  rcases unwrapStep_shape env s q with ⟨e, errs, _, ht⟩ | ⟨r, _, _, ht⟩ <;> rw [ht] <;> simp
+
+theorem unwrapPhase_toElab_prefix (env : Env) (fuel : Nat) (s s' : St) (h : unwrapPhase env fuel s = some s') :
+    s.toElab <+: s'.toElab := by
+  induction fuel generalizing s with
+  | zero => simp [unwrapPhase] at h
+  | succ n ih =>
+    unfold unwrapPhase at h
+    split at h
+    · cases h; exact List.prefix_refl _
+    · rename_i q rest hq
+      exact List.IsPrefix.trans (unwrapStep_toElab_prefix env { s with toUnwrap := rest } q) (ih _ h)
+
+theorem origin_roundtrip (env : Env) (fuel : Nat) (o f : Item) (rest : List (Option Item))
+    (ho : env.isFrame o = false) (hw : env.weakrefable o = true) (hg : env.genLike o = true)
+    (hfo : env.frameOf o = some f) (hf : env.isFrame f = true) (hfg : env.genLike f = false)
+    (hu : env.unwrap o = .seq (some f :: rest)) (hG : 1 ≤ SS.Gen.unwrapGuard)
+    (fs : List OutFrame) (l : Leaf) (es : List Err) (h : extract env fuel o = .done fs l es) :
+    ∃ hide tl, fs = ⟨⟨f, some o⟩, hide⟩ :: tl := by
+  unfold extract at h
+  cases fuel with
+  | zero => simp [run] at h
+  | succ n =>
+    unfold run at h
+    cases hp : unwrapPhase env (n+1) (initSt env o) with
+    | none => rw [hp] at h; cases h
+    | some s' =>
+      rw [hp] at h
+      simp only [] at h
+      -- first two unwrap steps are determined
+      have hbo : betterOrigin env (.item o) none = some o := by simp [betterOrigin, hw, hg]
+      have hbf : betterOrigin env (.item f) (some o) = some o := by
+        simp only [betterOrigin]
+        by_cases hwf : env.weakrefable f = true
+        · simp [hwf, hfg, hg]
+        · simp [hwf]
+      have hng : ¬ (0 + 1 > SS.Gen.unwrapGuard) := by omega
+      cases n with
+      | zero =>
+        simp [unwrapPhase, initSt, unwrapStep, ho, hu, handleUnwrap, UnwrapRes.raised, UnwrapRes.isNone, hng] at hp
+      | succ m =>
+        have hstep : ∃ s1, unwrapPhase env (m+1+1) (initSt env o) = unwrapPhase env m s1
+            ∧ s1.toElab = [⟨.frameObj ⟨f, some o⟩, 1⟩] ∧ s1.out = [] := by
+          refine ⟨(⟨pushUnwrapped env rest (some o) 0 [], [⟨.frameObj ⟨f, wrapOrigin env f (some o)⟩, 1⟩], 0, [], []⟩ : St),
+            ?_, ?_, rfl⟩
+          · have e1 : unwrapStep env (⟨[], [], 0, [], []⟩ : St) (⟨some o, .item o, 0⟩ : QE)
+                = (⟨(⟨some o, .item f, 1⟩ : QE) :: pushUnwrapped env rest (some o) 0 [], [], 1, [], []⟩ : St) := by
+              simp [unwrapStep, ho, hu, handleUnwrap, UnwrapRes.raised, UnwrapRes.isNone, UnwrapRes.children,
+                UnwrapRes.iterErrs, hng, pushUnwrapped, hbf]
+            have e2 : unwrapStep env (⟨pushUnwrapped env rest (some o) 0 [], [], 1, [], []⟩ : St) (⟨some o, .item f, 1⟩ : QE)
+                = (⟨pushUnwrapped env rest (some o) 0 [], [⟨.frameObj ⟨f, wrapOrigin env f (some o)⟩, 1⟩], 0, [], []⟩ : St) := by
+              simp [unwrapStep, hf]
+            simp only [unwrapPhase, initSt, hbo]
+            rw [e1]
+            simp only []
+            rw [e2]
+          · simp [wrapOrigin, hg, hfo]
+        obtain ⟨s1, h1, h1e, h1o⟩ := hstep
+        rw [h1] at hp
+        have hpre := unwrapPhase_toElab_prefix env m s1 s' hp
+        have hout := unwrapPhase_out env m s1 s' hp
+        rw [h1e] at hpre
+        obtain ⟨t, ht⟩ := hpre
+        have hE : s'.toElab = ⟨.frameObj ⟨f, some o⟩, 1⟩ :: t := by rw [← ht]; rfl
+        rcases elabStep_shape env s' with ⟨l', hl⟩ | ⟨s'', x, errs, hs'', hx, _⟩
+        · exfalso
+          unfold elabStep at hl
+          rw [hE] at hl
+          simp only [] at hl
+          split at hl <;> cases hl
+        · rw [hs''] at h
+          have hpre2 := run_out_prefix env _ s'' fs l es h
+          have hxv : ∃ hide, x = ⟨⟨f, some o⟩, hide⟩ := by
+            unfold elabStep at hs''
+            rw [hE] at hs''
+            simp only [] at hs''
+            split at hs'' <;> (simp only [Sum.inr.injEq] at hs''; subst hs''; simp at hx; exact ⟨_, hx.symm⟩)
+          obtain ⟨hide, hxe⟩ := hxv
+          rw [hx, hout, h1o, hxe] at hpre2
+          obtain ⟨tl, htl⟩ := hpre2
+          exact ⟨hide, tl, by simpa using htl.symm⟩
 
 end SS.Extract
